@@ -36,14 +36,6 @@ int c_main(int argc, String *argv)
 #endif
 #define POST_compCmd(r)			(g_interactive || (C07_N_RANGE(r) && (r) == g_errors_printed))
 #define POST_compCmd_main(r)		(C07_N_RANGE(r) && (r) == g_errors_printed)
-/* enforced on the real compCmd (job axlcomp.compCmd): on the batch route the value returned is the
- * number of errors printed */
-int c_compCmd(int argc, char **argv)
-	__CPROVER_requires(g_errors_printed == 0 && g_interactive == 0 && (argc) >= 1 && (argc) <= C07_MAX_FILES + 1)
-	__CPROVER_requires(__CPROVER_is_fresh(argv, (C07_MAX_FILES + 2) * sizeof(char *)))
-	__CPROVER_ensures(POST_compCmd(__CPROVER_return_value))
-	__CPROVER_assigns(g_errors_printed, g_file_errors, g_interactive, cmdFileCount, compFinfov,
-			  compDoGcFile, compDoGc, compRootDir, compIsDebug, cmdOptionArg);
 /* as main uses it (replaced there): the instance of c_compCmd for the ghost-chosen n = g_n; g_n is
  * arbitrary, so every behaviour c_compCmd allows on the batch route is covered */
 int c_compCmd_n(int argc, char **argv)
@@ -53,9 +45,22 @@ int c_compCmd_n(int argc, char **argv)
 
 #ifndef C_MAIN_ONLY
 
+/* enforced on the real compCmd (job axlcomp.compCmd): on the batch route the value returned is the
+ * number of errors printed */
+int c_compCmd(int argc, char **argv)
+	__CPROVER_requires(g_errors_printed == 0 && g_interactive == 0 && (argc) >= 1 && (argc) <= C07_MAX_FILES + 1)
+	__CPROVER_requires(__CPROVER_is_fresh(argv, (C07_MAX_FILES + 2) * sizeof(char *)))
+	__CPROVER_ensures(POST_compCmd(__CPROVER_return_value))
+	__CPROVER_assigns(g_errors_printed, g_file_errors, g_interactive, cmdFileCount, compFinfov,
+			  compDoGcFile, compDoGc, compRootDir, compIsDebug, cmdOptionArg);
+
 /* ---- compFilesLoop: "Compile files ... and return the total error count" ----- */
 #define PRE_compFilesLoop(argc, argv)	(g_errors_printed == 0 && (argc) >= 1 && (argc) <= C07_MAX_FILES + 1)
+#ifndef CANARY_compFilesLoop
 #define POST_compFilesLoop(r)		((r) >= 0 && (r) == g_errors_printed && ((r) > 0) == (g_errors_printed > 0))
+#else	/* canary: claims only the LAST file's errors are returned (totErrors = nErrors instead of +=) */
+#define POST_compFilesLoop(r)		((r) >= 0 && (r) <= C07_MAX_PER_FILE)
+#endif
 int c_compFilesLoop(int argc, char **argv)
 	__CPROVER_requires(PRE_compFilesLoop(argc, argv))
 	__CPROVER_requires(__CPROVER_is_fresh(argv, (C07_MAX_FILES + 2) * sizeof(char *)))
@@ -63,8 +68,13 @@ int c_compFilesLoop(int argc, char **argv)
 	__CPROVER_assigns(g_errors_printed, g_file_errors, cmdFileCount, compFinfov);
 
 /* ---- per-file compile functions: return the error count of that file ---------- */
+#ifndef CANARY_compOneFile
 #define POST_compOneFile(r) \
 	((r) >= 0 && (r) <= C07_MAX_PER_FILE && g_errors_printed == __CPROVER_old(g_errors_printed) + (r))
+#else	/* canary: claims a file never reports an error */
+#define POST_compOneFile(r) \
+	((r) == 0 && g_errors_printed == __CPROVER_old(g_errors_printed) + (r))
+#endif
 int c_compSourceFile(EmitInfo finfo)
 	__CPROVER_requires(g_errors_printed >= 0 && g_errors_printed <= C07_MAX_FILES * C07_MAX_PER_FILE)
 	__CPROVER_ensures(POST_compOneFile(__CPROVER_return_value))
